@@ -24,8 +24,11 @@ const Req REQS[] = {
 	{ "GET /redir HTTP/1.1\r\nCONNECTION: Close\r\n\r\n", 2, true },
 	{ "GET /big HTTP/1.0\r\nX: y\r\n\r\n", 3, false },
 	{ "POST /a/../hello?q=1 HTTP/1.1\r\nContent-Length: 0\r\n\r\n", 0, false },
+	// ranges the content handler cannot use (open-ended, not a number): an error while serving the request, handled like malformed input
+	{ "GET /big HTTP/1.1\r\nRange: bytes=100-\r\n\r\n", 6, false },
+	{ "GET /big HTTP/1.1\r\nrange: bytes=x-99999999999999999999\r\n\r\n", 6, false },
 };
-int const NREQ = 9;
+int const NREQ = 11;
 
 inline char bigbyte(int64_t i) { return char('a' + (i * 7 + (i >> 6)) % 26); }
 std::string HELLO = "HTTP/1.1 200 OK\r\ncontent-length: 5\r\nx-from: harness\r\n\r\nhello";
